@@ -318,11 +318,11 @@ def exec (s : St) (w : List String) : St × J :=
   | "addfrom" :: k :: t :: e :: n :: rest =>
     mutate s (tokN k) (fun g => g.addInteractionsFrom ((pairsFrom rest).take (tokN n)) (tokI t) (tokI e))
   | "path" :: k :: t :: n :: rest => mutate s (tokN k) (fun g => g.addPath ((rest.take (tokN n)).map tokN) (tokI t))
-  | "fpath" :: k :: t :: n :: rest => mutate s (tokN k) (fun g => g.addPath ((rest.take (tokN n)).map tokN) (tokI t))
+  | "fpath" :: k :: t :: n :: rest => mutate s (tokN k) (fun g => g.addPath ((rest.take (tokN n)).map tokN) (tokI t) (((rest.drop (tokN n)).head?).bind tokI))
   | "star" :: k :: t :: n :: rest => mutate s (tokN k) (fun g => g.addStar ((rest.take (tokN n)).map tokN) (tokI t))
-  | "fstar" :: k :: t :: n :: rest => mutate s (tokN k) (fun g => g.addStar ((rest.take (tokN n)).map tokN) (tokI t))
+  | "fstar" :: k :: t :: n :: rest => mutate s (tokN k) (fun g => g.addStar ((rest.take (tokN n)).map tokN) (tokI t) (((rest.drop (tokN n)).head?).bind tokI))
   | "cycle" :: k :: t :: n :: rest => mutate s (tokN k) (fun g => g.addCycle ((rest.take (tokN n)).map tokN) (tokI t))
-  | "fcycle" :: k :: t :: n :: rest => mutate s (tokN k) (fun g => g.addCycle ((rest.take (tokN n)).map tokN) (tokI t))
+  | "fcycle" :: k :: t :: n :: rest => mutate s (tokN k) (fun g => g.addCycle ((rest.take (tokN n)).map tokN) (tokI t) (((rest.drop (tokN n)).head?).bind tokI))
   | ["node", k, n] => mutate s (tokN k) (fun g => (g.addNode (tokN n), none))
   | ["attr", k, n, a] => mutate s (tokN k) (fun g => (g.setAttr (tokN n) (tokN a), none))
   | ["clear", k] => mutate s (tokN k) (fun g => (g.clear, none))
@@ -495,6 +495,25 @@ def exec (s : St) (w : List String) : St × J :=
     withG s k (fun g =>
       match g.deltaConformity (start.toInt?.getD 0) (delta.toInt?.getD 0) ((alphas.take (tokN n)).map (fun a => tokN a / 100)) (tokN pt) with
       | .ok r => confJ r
+      | .error e => jerr e)
+  | "confw" :: k :: start :: delta :: pt :: na :: rest =>
+    -- confw slot start delta ptype na (key100 nd (num den)*nd)*na : the powers d ** alpha (d = 1..nd) as exact rationals
+    withG s k (fun g =>
+      let rec blocks : Nat → List String → List (Nat × List Rat)
+        | 0, _ => []
+        | m + 1, key :: nd :: r =>
+          let n := tokN nd
+          let body := r.take (2 * n)
+          let ws := (List.range n).map (fun i =>
+            mkRat ((body.getD (2 * i) "0").toInt?.getD 0) (tokN (body.getD (2 * i + 1) "1")))
+          (tokN key, ws) :: blocks m (r.drop (2 * n))
+        | _, _ => []
+      let al := (blocks (tokN na) rest).map (fun (key, ws) => (key, fun (d : Nat) => if d == 0 then (1 : Rat) else ws.getD (d - 1) 1))
+      match g.deltaConformityW (start.toInt?.getD 0) (delta.toInt?.getD 0) al (tokN pt) with
+      | .ok none => .null
+      | .ok (some l) => .obj (l.map (fun (a, sc) =>
+          (toString (a / 100) ++ "." ++ (if a % 100 < 10 then "0" else "") ++ toString (a % 100), J.obj [("a",
+            .arr ((sortByKey (fun (p : Node × Rat) => [(p.1 : Int)]) sc).map (fun p => .arr [jn p.1, jrat p.2])))])))
       | .error e => jerr e)
   | "confp" :: k :: start :: delta :: pt :: psize :: nl :: rest =>
     -- confp slot start delta ptype profile_size  nl l1..  na a1..  nt (node label value)*
